@@ -165,9 +165,13 @@ def judge(case, v):
             if v.get("matched") and d >= 8000 and c["res"] != "empty" and c["elapsed_us"] > 6000000:
                 return "try_recv_timeout(%s ms) did not return early although a message/disconnection was there (%d us)" % (
                     d, c["elapsed_us"]), True
-    if (not v.get("matched")) and "in the kernel" in v.get("why", ""):
-        i = v.get("diverged_in_call", 0)
-        if i < len(case["plan"]) and case["plan"][i] == "try":
+    import re as _re
+    mk = _re.search(r"actor 0 is blocked in the kernel \(syscall (-?\d+)\)", v.get("why", ""))
+    # asleep in recvmsg (47) or poll/ppoll (7/271) on the channel's socket; waiting for the follow-up fragments of a
+    # message whose first fragment has arrived (recvfrom, 45) is the transport's documented behaviour
+    if (not v.get("matched")) and mk and int(mk.group(1)) in (47, 7, 271):
+        i = v.get("diverged_in_call", -1)
+        if 0 <= i < len(case["plan"]) and case["plan"][i] == "try":
             return "try_recv (call %d) went to sleep in the kernel: %s" % (i, v.get("why")), False
     if v.get("matched") and "sends" in v:
         want = sorted((x["s"], x["j"], x["res"]) for x in case.get("slog", []))
